@@ -134,3 +134,40 @@ def c13_reframe(data, version_number, type, secondary_header_flag, apid, sequenc
     assert len(out) <= 1, "at_most_one"
     assert out[0] == T, "same_bytes"
     return out
+
+
+# ---- C09 / C15: write -> load round trips (bounded: lxml is outside the prover's reach, E6) ----------------------------
+def c09_roundtrip(definition, raws):
+    import io
+    import lxml.etree as ET
+    from space_packet_parser.xtce.definitions import XtcePacketDefinition
+    from specs.refsem import canon_definition, same_definition, ref_parse_outcome
+
+    def W(d):
+        return ET.tostring(d.to_xml_tree(), pretty_print=True, xml_declaration=True, encoding='utf-8')
+
+    def L(text, like):
+        return XtcePacketDefinition.from_xtce(io.BytesIO(text), xtce_ns_prefix=like.xtce_ns_prefix,
+                                              root_container_name=like.root_container_name)
+
+    def items(outcome):
+        kind, val = outcome
+        if kind == 'error':
+            return kind, val
+        return kind, [(k, type(v).__name__, repr(v), repr(v.raw_value)) for k, v in val.items()], val.pos
+    before = canon_definition(definition)
+    g1 = W(definition)
+    assert W(definition) == g1, "C15_deterministic"
+    assert canon_definition(definition) == before, "C15_write_does_not_alter"
+    tree = ET.fromstring(g1)
+    uri = definition.xtce_schema_uri
+    assert all((not isinstance(e.tag, str)) or (e.tag.startswith('{%s}' % uri) if uri else not e.tag.startswith('{'))
+               for e in tree.iter()), "C15_namespace"
+    d2 = L(g1, definition)
+    assert same_definition(d2, definition), "C09_same_meaning"
+    for raw in raws:
+        assert items(ref_parse_outcome(d2, raw)) == items(ref_parse_outcome(definition, raw)), "C09_same_decoding"
+    g2 = W(d2)
+    g3 = W(L(g2, definition))
+    assert g2 == g3, "C15_stable"
+    return g1
